@@ -4,6 +4,7 @@ from vlib import cli
 
 ID = "C19"
 NEEDS_CLI = True
+THOROUGH_ROUNDS = 2
 RULE = ("real binary `hex encode`/`hex decode` (stdin, file argument, default argument) vs model: all 256 byte values, "
         "lengths 0..4096 (thorough: every length; quick: 0..64 + sampled + boundaries), round trip of every encode output "
         "through decode, whitespace/case/prefix layouts, malformed (odd, non-hex, non-UTF-8, doubled prefix); "
